@@ -2,9 +2,10 @@
 use crate::gen::*;
 use serde_json::{json, Value};
 
-pub const NAMES: &[&str] = &["div", "p", "span", "em", "ul", "li", "section", "b", "td", "tr", "table"];
+pub const NAMES: &[&str] = &["div", "p", "span", "em", "ul", "li", "section", "b", "td", "tr", "table", "sup"];
 pub const CLASSES: &[&str] = &["x", "y", "z"];
 
+fn structural_name(n: &str) -> bool { n == "table" || n == "tr" || n == "td" || n == "li" }
 pub fn colour_hex(c: &Value) -> String { format!("#{:02x}{:02x}{:02x}", c[0].as_u64().unwrap_or(0), c[1].as_u64().unwrap_or(0), c[2].as_u64().unwrap_or(0)) }
 
 pub fn compound(r: &mut Rng, comb: &str, ids: &[String]) -> Value {
@@ -130,6 +131,12 @@ impl CssDoc {
                    else if inline_parent { *r.pick(&["span", "em", "b"]) }
                    else if self.tables && depth <= 1 && r.chance(1, 6) { "table" }
                    else { *r.pick(&["div", "p", "span", "em", "ul", "section", "div", "p"]) };
+        // a superscript holding only digits is rendered through a shortcut of its own
+        if !structural_name(name) && depth >= 1 && r.chance(1, 12) {
+            let mut attrs: Vec<(&str, String)> = vec![];
+            if r.chance(2, 3) { attrs.push(("class", (*r.pick(CLASSES)).to_string())); }
+            return N::ela("sup", attrs, vec![N::T(format!("{}", r.below(100)))]);
+        }
         let structural = name == "table" || name == "tr";
         let mut attrs: Vec<(&str, String)> = vec![];
         if r.chance(1, 2) { let mut cl = vec![*r.pick(CLASSES)]; if r.chance(1, 3) { let c2 = *r.pick(CLASSES); if !cl.contains(&c2) { cl.push(c2); } } attrs.push(("class", cl.join(*r.pick(&[" ", " ", " ", "  ", "\t", "\n", " \n ", "\u{c}"])))); }
